@@ -59,14 +59,14 @@ def tad_pipe():
     """tad.py for pipeline runs: proxy-aware max/min (merging) and the sweep-counting logging stub"""
     if "tad" not in _pipe:
         std = repo.std()
-        m = repo.load("tad", overrides={"max": sym_max, "min": sym_min}, imports={"reverse_dfs": std.reverse_dfs},
+        m = repo.load("tad", overrides=dict(PROXY_BUILTINS, max=sym_max, min=sym_min), imports={"reverse_dfs": std.reverse_dfs},
                       alias="tad_pipe")
         m.logging = LoggingStub()
         _pipe["tad"] = m
     return _pipe["tad"]
 
 
-BUILD = dict(fig55=G.fig55, dead=G.dead_family, cyc=G.cyc, cyc2=G.cyc2, ec=G.ec, finals=G.finals, p2choice=G.p2choice,
+BUILD = dict(slow_rew=G.slow_rew, regroup=G.regroup, rew_ties=G.rew_ties, fig55=G.fig55, dead=G.dead_family, cyc=G.cyc, cyc2=G.cyc2, ec=G.ec, finals=G.finals, p2choice=G.p2choice,
              lex=G.lex, ties=G.ties, ties_p2=G.ties_p2, nosol=G.nosol, unreach=G.unreach, slow_chain=G.slow_chain)
 
 
@@ -88,6 +88,8 @@ def oracle(game, args):
 
 
 def solve(sp, desc, prune, budget=400):
+    budget = desc.get("_budget", budget) if isinstance(desc, dict) else budget
+    desc = {k: v for k, v in desc.items() if not k.startswith("_")}
     """run the real pipeline on a fresh copy; returns ('ok', 8-tuple) | ('nosol', message)"""
     t = tad_pipe()
     t.logging.reset(budget)
@@ -134,11 +136,14 @@ def _stopping_instances(tier):
     for p, q in grid:
         inst.append(("fig55", [p, q]))
     inst.append(("fig55", [0.5, 0.75, [1, 2, 3, 4]]))
-    letters2 = "DCABF"
+    letters2 = "DCABFET"
     for kind in (P1, PR):
         for sk in itertools.product(letters2, repeat=2):
             inst.append(("dead", [kind, list(sk)]))
-        l3 = "DAF" if tier == "quick" else "DCAF"
+        l3 = "DAF" if tier == "quick" else "DCAFE"
+        if tier == "quick":
+            for sk in (["E", "A", "D"], ["A", "E", "E"], ["E", "E", "F"], ["E", "D", "B"]):
+                inst.append(("dead", [kind, sk]))
         for sk in itertools.product(l3, repeat=3):
             inst.append(("dead", [kind, list(sk)]))
         if tier == "thorough":
@@ -170,7 +175,7 @@ def _reach_only_instances(tier):
         inst.append(("ec", [w]))
     for w in ("34", "43", "343", "4", "3"):
         inst.append(("finals", [w]))
-    for w in ("forced", "nopath", "chance"):
+    for w in ("forced", "nopath", "chance", "walled"):
         inst.append(("nosol", [w]))
     return inst
 
@@ -392,3 +397,58 @@ def pipe_final(sp, game, args, prune):
               "(cheapest)'; 1 at the initial state when pruning")
 def pipe_diag(sp, game, args, prune):
     _pipe_rewards(sp, game, args, prune, ("C14",))
+
+
+# ------------------------------------------------------------------ C05 / C02: concrete rewards vs exact Fraction oracle (float-sum ties)
+def _conc_jobs(tier, seed):
+    jobs = [dict(game=g, args=a, _cost=1) for g, a in _stopping_instances(tier)]
+    for owner in (P1, P2):
+        for r in (1, 3, 0.3, 7):
+            jobs.append(dict(game="rew_ties", args=[owner, r], _cost=1))
+    for p in (0.9997, 0.99):
+        jobs.append(dict(game="slow_rew", args=[p], _cost=5))
+    return jobs
+
+
+@harness("pipe.final_concrete", props=["C05", "C02"], jobs=_conc_jobs, covers=["float_sum_tie", "p1_tie", "p2_tie"],
+         stubs=["logging -> sweep counter"],
+         bounds="all stopping template instances with concrete rewards (1 at the reward slots) plus exact reward ties reached through "
+                "different floating-point sums (0.7r+0.2r+0.1r vs r); everything runs natively in IEEE doubles; oracle: exact max-min "
+                "expected total reward of the reference-conditioned game in Fractions, probability literals read as decimals",
+         desc="CONCRETE differential (not a solver verdict): real solve() natively; reported rewards within 4e-5 of the exact values and "
+              "final strategies = exactly the permitted reward-optimal actions wherever exact successor values are equal or > 1e-4 apart")
+def pipe_final_concrete(sp, game, args):
+    g = build(game, args)
+    desc = dict(rewards=[1 if r == G.SYM else r for r in g.rewards], players=list(g.players),
+                transition_list=[list(x) for x in g.tl], final_states=list(g.finals))
+    T = G.max_steps(g.players, g.tl)
+    tol = max(TOL, 2 * THR * float(T) * max(1, max(desc["rewards"]))) if T is not None else TOL
+    if game == "slow_rew":
+        desc["_budget"] = 10 ** 6      # needs ~1/(1-p) * 15 sweeps
+    for prune in (True, False):
+        kind, res = solve(sp, desc, prune)
+        if kind != "ok":
+            continue
+        fin, rstrat, rewards, probs = res[0], res[1], res[2], res[3]
+        ctl = G.condition(g.players, g.tl, probs, rstrat, prune)
+        states = sorted(G.reach_from0(ctl)) if prune else list(range(g.n))
+        ex = G.exact_rewards(g.players, ctl, desc["rewards"], conv=G.dec)
+        for s in states:
+            sp.prove(abs(float(ex[s]) - rewards[s]) <= tol, "expected reward of state %d is %r, exact conditioned value %s" % (s, rewards[s], float(ex[s])))
+            if g.players[s] == PR:
+                sp.prove(fin[s] is None, "chance state %d has a final strategy" % s)
+                continue
+            if not ctl[s]:
+                continue
+            vals = [ex[t] for _, t in ctl[s]]
+            if not all(a == b or abs(a - b) > Fraction(1, 10 ** 4) for a, b in itertools.combinations(vals, 2)):
+                continue
+            ext = max(vals) if g.players[s] == P1 else min(vals)
+            exp = [a for (a, _), v in zip(ctl[s], vals) if v == ext]
+            if len(exp) > 1:
+                sp.cover("p1_tie" if g.players[s] == P1 else "p2_tie")
+                if game == "rew_ties":
+                    sp.cover("float_sum_tie")
+            sp.prove(fin[s] == exp, "final strategy of state %d is %s, exact reward-optimal permitted actions %s" % (s, fin[s], exp))
+            if g.players[s] == P1:
+                sp.prove(set(fin[s]) <= set(rstrat[s]), "final strategy of state %d leaves its reachability strategy" % s)
